@@ -173,7 +173,7 @@ def run(rep, tier, seed, replay, prop, names, relevant, rule, rf1=False, mc_quic
         rep.add_design(cfg, res)
     behaviours = probe_stimuli(rep)
     import json
-    for fn in ('replication_regressions.json', 'replication_defects.json'):
+    for fn in ('replication_regressions.json', 'replication_defects.json', 'replication_directed.json'):
         # fixed stimuli: histories that exposed repaired defects, and one TLC counterexample per open
         # defect (so that every run replays the same histories and prints the same KNOWN-FINDING lines)
         with open(os.path.join(core.SPEC, 'scenarios', fn)) as fh:
@@ -213,7 +213,10 @@ def run(rep, tier, seed, replay, prop, names, relevant, rule, rf1=False, mc_quic
         res = core.tlc_check('MC_Replication.tla', 'MC_Replication_batch.cfg', timeout=1800)
         rep.add_design('MC_Replication_batch.cfg', res)
         sims = core.tlc_simulate('MC_Replication.tla', 'Sim_Replication_batch.cfg', 25 if tier == 'quick' else 300, 14, seed + 2)
-        b2 = [to_stimulus(b, 7000 + i, {'minISR': 2, 'fetchMax': 2, 'rf': 3, 'batch': 2}) for i, b in enumerate(sims) if len(b) > 1]
+        # every other behaviour sends the members of a batch 25 ms apart, so that the later ones
+        # arrive while the leader is waiting for the batch to fill (a different code path)
+        b2 = [to_stimulus(b, 7000 + i, {'minISR': 2, 'fetchMax': 2, 'rf': 3, 'batch': 2, 'gapMs': 25 * (i % 2)})
+              for i, b in enumerate(sims) if len(b) > 1]
         with core.scratch(prop.lower()) as d:
             trace = execute(b2, d, timeout=3000)
             tr2 = judge(rep, b2, trace, prop, names)
